@@ -36,7 +36,7 @@ def run(ctx):
     nworlds = 10 if ctx.tier != "thorough" else 60
     d = lib.scratch_dir()
     root = os.path.join(d, "m")
-    wl, sites, stats = worlds.generate(ctx, nworlds, "c08", root, full_annotations=True, with_impl=True)
+    wl, sites, stats = worlds.generate(ctx, nworlds, "c08", root, layout={"unrelated_ignores": True}, full_annotations=True, with_impl=True)
     dump = os.path.join(d, "dump.sx")
     rc, err = worlds.skel(ctx, root, dump)
     sets = [[t] for t in ["ALL"] + CATS + CODES + JUNK]
